@@ -17,7 +17,12 @@ import (
 )
 
 // SpecDir is the directory holding the .tla/.cfg files.
-var SpecDir = "/verif/spec"
+var SpecDir = func() string {
+	if d := os.Getenv("VERIF_DIR"); d != "" {
+		return filepath.Join(d, "spec")
+	}
+	return "/verif/spec"
+}()
 
 type Result struct {
 	Generated int64 // states generated (= transitions explored + initial states)
